@@ -57,7 +57,7 @@ def fold_function(fi):
     if fi.qualname not in PIN["locals"]:
         return 0
     total = 0
-    for _ in range(6):
+    for _ in range(80):
         for n in ast.walk(fn):
             for c in ast.iter_child_nodes(n):
                 c._parent = n
@@ -72,6 +72,25 @@ def fold_function(fi):
             if t in pinned or t.startswith("__") or len(stores.get(t, [])) != 1:
                 continue
             if _in_nested_scope(st, fn):
+                continue
+            # a local that is itself written through (t[..] = .., t.attr = .., t.append(..)) is an object being built, not a name for an expression
+            mutated = False
+            for a in ast.walk(fn):
+                tg = a.targets if isinstance(a, ast.Assign) else [a.target] if isinstance(a, (ast.AugAssign, ast.AnnAssign)) else \
+                    a.targets if isinstance(a, ast.Delete) else []
+                for g in tg:
+                    r = g
+                    while isinstance(r, (ast.Subscript, ast.Attribute)):
+                        r = r.value
+                    if r is not g and isinstance(r, ast.Name) and r.id == t:
+                        mutated = True
+                if isinstance(a, ast.Call) and isinstance(a.func, ast.Attribute) and a.func.attr in _MUTATORS:
+                    r = a.func.value
+                    while isinstance(r, (ast.Subscript, ast.Attribute)):
+                        r = r.value
+                    if isinstance(r, ast.Name) and r.id == t:
+                        mutated = True
+            if mutated:
                 continue
             expr = st.value
             if any(isinstance(x, (ast.Yield, ast.YieldFrom, ast.Await, ast.NamedExpr)) for x in ast.walk(expr)):
